@@ -54,7 +54,7 @@ def check_answer(backend, stored, filters, got, viol, where="req"):
     n_non = 0
     for ev in stored.values():
         k_may = sum(1 for f in filters if R.may_match(ev, f))
-        musts = [f for f in filters if R.must_match(ev, f)]
+        musts = [f for f in obliging(filters) if R.must_match(ev, f)]
         cnt = ids.count(ev["id"])
         if musts:
             n_must += 1
@@ -79,7 +79,14 @@ def check_answer(backend, stored, filters, got, viol, where="req"):
 
 
 def in_domain(filters):
-    return (1 <= len(filters) <= 5 and all(R.wellformed_filter(f) and R.has_condition(f) for f in filters))
+    """1..5 filters, at least one well-formed with a condition; malformed companions (e.g. an empty value list) are allowed
+    in the REQ but carry no obligation"""
+    good = [f for f in filters if R.wellformed_filter(f) and R.has_condition(f)]
+    return 1 <= len(filters) <= 5 and bool(good)
+
+
+def obliging(filters):
+    return [f for f in filters if R.wellformed_filter(f) and R.has_condition(f)]
 
 
 class Complete(Sub):
